@@ -95,6 +95,11 @@ func buildBank(seed int64) (*Scenario, error) {
 	b.TxE(112, 113, "one unit of pUSD: 20 PEG units asked, share 0, refund 1", users[0], Conv(users[0].FAAddress(), USD, 1, PEG))
 	b.TxE(112, 113, "ten units of pUSD: share 4", users[0], Conv(users[0].FAAddress(), USD, 10, PEG))
 
+	// an address WITHOUT funds: an overflowing conversion first, then a PEG request -- rejected (-1), no part in the bank
+	ghost := Key("bankghost", 0)
+	b.TxE(106, -1, "unfunded: overflowing conversion, then a PEG request", ghost,
+		Conv(ghost.FAAddress(), fat2.PTickerXBT, 9000000000000000000, USD), Conv(ghost.FAAddress(), USD, 1000*fct, PEG))
+
 	menu := func(last uint64, blockTotal uint64) uint64 {
 		switch rng.Intn(7) {
 		case 0:
@@ -215,10 +220,11 @@ func buildBankMixed(seed int64) (*Scenario, error) {
 		b.Tx(122, u[0], Conv(U0, FCT, fct, PEG), Xfer(U0, FCT, fct, U1))
 		b.Note("bankmixed: block 123 fails with 'no such column' (transfer next to a PEG request)")
 	case 1:
-		// user 3 holds 800 PEG, is promised 4000 more and spends 2 x 500: every
+		// user 3 holds 800 PEG, is promised 4000 more and converts 2 x 500 of it: every
 		// transaction is covered by the starting balance, the simulation counts
-		// the promise, recordBatch does not have it yet
-		b.Tx(122, u[3], Conv(U3, FCT, 50*fct, PEG), Xfer(U3, PEG, 500*fct, U1), Xfer(U3, PEG, 500*fct, U1))
+		// the promise, recordBatch does not have it yet (conversions, not transfers: a
+		// transfer next to a PEG request fails earlier, for the other reason)
+		b.Tx(122, u[3], Conv(U3, FCT, 50*fct, PEG), Conv(U3, PEG, 500*fct, USD), Conv(U3, PEG, 500*fct, USD))
 		b.Note("bankmixed: block 123 fails with 'uncaught: insufficient balance'")
 	default:
 		b.Tx(122, u[1], Xfer(U1, FCT, fct, U0), Conv(U1, FCT, 2*fct, PEG))
